@@ -435,6 +435,14 @@ pub(crate) fn add_int_combination<W, R, T>(
             if k > n{
                 return xerr(ManagedXError::new("k cannot be greater than n", rt)?);
             }
+            if k == 0 {
+                // the only combination of nothing is the empty one
+                return if i == 0 {
+                    Ok(manage_native!(XSequence::<W, R, T>::Empty, rt))
+                } else {
+                    xerr(ManagedXError::new("i too large", rt)?)
+                };
+            }
             let mut s_cutoff = binomial(n-1,k-1);
             let total = s_cutoff*n/k;
             if i >= total{
@@ -480,6 +488,14 @@ pub(crate) fn add_int_combination_with_replacement<W, R, T>(
 
             if k > n{
                 return xerr(ManagedXError::new("k cannot be greater than n", rt)?);
+            }
+            if k == 0 {
+                // the only combination of nothing is the empty one
+                return if i == 0 {
+                    Ok(manage_native!(XSequence::<W, R, T>::Empty, rt))
+                } else {
+                    xerr(ManagedXError::new("i too large", rt)?)
+                };
             }
             let mut s_cutoff = binomial(n+k-2,k-1);
             let total = (s_cutoff*(n+k-1))/k;
